@@ -2196,3 +2196,69 @@ def plan_c19(tier, seed):
 
 
 PLANS.update({"C19": plan_c19})
+
+
+# ------------------------------------------------------------------------------------------------
+# universal random structs: the same generator feeds every property with its own harness family
+def universal_units(prop, tier, seed, want, pick_fields, harnesses, struct_filter=None, decl_suffix="", pre_fn=None, salt=0):
+    """want: number of structs; pick_fields(L) -> fields this property cares about; harnesses(L, fields) -> [Harness]"""
+    us, k, tries = [], 0, 0
+    pool = universal_layouts(seed, want * 12, salt=salt + sum(ord(c) for c in prop))
+    for L in pool:
+        if len(us) >= want:
+            break
+        if struct_filter and not struct_filter(L):
+            continue
+        fs = pick_fields(L)
+        if not fs:
+            continue
+        hs = [h for h in harnesses(L, fs) if h is not None]
+        if not hs:
+            continue
+        u = Unit(f"u{len(us):05d}", L.decl() + decl_suffix, hs, {"layout": L, "sig": L.sig(), "tag": L.tag, "valid": True, "origin": "universal"}, pre_fn(L) if pre_fn else "")
+        us.append(u)
+    return us
+
+
+def n_universal(tier):
+    return 30 if tier == "quick" else 300
+
+
+_plan_c01, _plan_c02, _plan_c03, _plan_c04, _plan_c05, _plan_c08 = plan_c01, plan_c02, plan_c03, plan_c04, plan_c05, plan_c08
+_plan_c11, _plan_c12, _plan_c13, _plan_c14, _plan_c16 = plan_c11, plan_c12, plan_c13, plan_c14, plan_c16
+
+
+def _with_universal(base_plan, prop, pick, harn, struct_filter=None, decl_suffix="", pre_fn=None, n_scale=1.0, profiles_note=""):
+    def plan(tier, seed):
+        pl = base_plan(tier, seed)
+        uu = universal_units(prop, tier, seed, int(n_universal(tier) * n_scale), pick, harn, struct_filter, decl_suffix, pre_fn)
+        pl.units = list(pl.units) + uu
+        pl.bounds = dict(pl.bounds)
+        pl.bounds["universal random structs"] = f"{len(uu)} seeded random structs (seed {seed}) drawn from a generator that varies every declaration dimension at once (base, field kinds and type spelling, single bits / ranges / lists of every flavour, arrays with default / explicit / gapped strides and any argument order, overlapping or tiled fields, access, default forms and constant names, legacy syntax); harness type errors and rejections of these units are only noted, the structured corpus carries those obligations"
+        return pl
+    return plan
+
+
+plan_c01 = _with_universal(_plan_c01, "C01", lambda L: [f for f in L.fields if f.readable], lambda L, fs: [H.h_get(L, f, "C01") for f in fs])
+plan_c02 = _with_universal(_plan_c02, "C02", lambda L: [f for f in L.fields if f.writable], lambda L, fs: [H.h_set(L, f, "C02") for f in fs] + [H.h_set2(L, fs[0], "C02")])
+plan_c03 = _with_universal(_plan_c03, "C03", lambda L: [f for f in L.fields if f.array], lambda L, fs: sum([field_harnesses(L, f, "C03") for f in fs], []))
+plan_c04 = _with_universal(_plan_c04, "C04", lambda L: [f for f in L.fields if len(f.ranges) > 1], lambda L, fs: sum([field_harnesses(L, f, "C04", twice=True) for f in fs], []))
+plan_c05 = _with_universal(_plan_c05, "C05", lambda L: [f for f in L.fields if f.ty.kind == "int"], lambda L, fs: sum([field_harnesses(L, f, "C05", oob=False, twice=True) + [h_signed_extra(L, f) if f.writable and f.readable else None] for f in fs], []), n_scale=0.7)
+plan_c08 = _with_universal(_plan_c08, "C08", lambda L: [f for f in L.fields if f.ty.kind in ("enum", "optenum", "custom", "nested")], lambda L, fs: sum([field_harnesses(L, f, "C08", oob=False) for f in fs], []))
+plan_c16 = _with_universal(_plan_c16, "C16", lambda L: L.fields, lambda L, fs: [H.h_total(L, f, "C16") for f in fs if (f.readable or f.writable)] + sum([[H.h_oob(L, f, "C16", op) for op in ((("get",) if f.readable else ()) + (("with", "set") if f.writable else ()))] for f in fs if f.array], []))
+plan_c12 = _with_universal(_plan_c12, "C12", lambda L: [f for f in L.fields if f.writable], lambda L, fs: [h_history(L, 1, "step"), h_history(L, 2, "history2")] + h_commute(L), n_scale=0.6)
+plan_c13 = _with_universal(_plan_c13, "C13", lambda L: [f for f in L.fields if f.writable], lambda L, fs: [h_builder(L)], struct_filter=lambda L: L.builder_expected() and sum((f.K or 1) for f in L.fields if f.writable) <= 24)
+plan_c14 = _with_universal(_plan_c14, "C14", lambda L: [f for f in L.fields if f.writable], lambda L, fs: [h_c14_probe(L, L.builder_expected()), h_c14_sound(L, "universal")], struct_filter=lambda L: sum((f.K or 1) for f in L.fields if f.writable) <= 24, decl_suffix="\n" + C14_PRE, n_scale=0.7)
+
+
+def _c11_pre(L):
+    pre = f"pub type VStorage = u{L.storage};\n" + VRES
+    for a in L.aux:
+        if isinstance(a, EnumDef):
+            pre += f"\nimpl VEnumBits for {a.name} {{ fn vbits(self) -> u128 {{ self as u128 }} }}"
+    return pre
+
+
+plan_c11 = _with_universal(_plan_c11, "C11", lambda L: [f for f in L.fields if f.writable], lambda L, fs: [h_c11_base(L)] + [h_c11_step(L, f) for f in fs], struct_filter=lambda L: not L.native, decl_suffix="\n" + C11_PRE, pre_fn=_c11_pre, n_scale=0.7)
+
+PLANS.update({"C01": plan_c01, "C02": plan_c02, "C03": plan_c03, "C04": plan_c04, "C05": plan_c05, "C08": plan_c08, "C11": plan_c11, "C12": plan_c12, "C13": plan_c13, "C14": plan_c14, "C16": plan_c16})
